@@ -26,9 +26,18 @@ def pki():
     from cryptography.hazmat.primitives import hashes, serialization
     from cryptography.hazmat.primitives.asymmetric import ec
     os.makedirs(WORK_DIR, exist_ok=True)
-    ca_key = ec.generate_private_key(ec.SECP256R1())
-    ee_key = ec.generate_private_key(ec.SECP256R1())
-    other_key = ec.generate_private_key(ec.SECP256R1())
+
+    def fresh_key():
+        # pycose 1.1.0 (the upstream library, not the repository) asserts on keys whose x, y or d has a leading zero octet: about
+        # one random key in 85.  Such keys are not used, so that a run never fails for a reason outside the code under test.
+        while True:
+            key = ec.generate_private_key(ec.SECP256R1())
+            nums = key.private_numbers()
+            if min(nums.private_value, nums.public_numbers.x, nums.public_numbers.y) >> 248:
+                return key
+    ca_key = fresh_key()
+    ee_key = fresh_key()
+    other_key = fresh_key()
     start = datetime.datetime(2020, 1, 1)
     end = datetime.datetime(2040, 1, 1)
     ca_name = x509.Name([x509.NameAttribute(x509.oid.NameOID.COMMON_NAME, 'vf CA')])
@@ -72,16 +81,16 @@ def pki():
 
     variants = {}
     for vname, san in (('nosan', None), ('dnsonly', [x509.DNSName('src-node.example')])):
-        vkey = ec.generate_private_key(ec.SECP256R1())
+        vkey = fresh_key()
         variants[vname] = (variant('v-' + vname, vkey, 20 + len(variants), san), vkey)
-    rogue_key = ec.generate_private_key(ec.SECP256R1())
+    rogue_key = fresh_key()
     rogue_name = x509.Name([x509.NameAttribute(x509.oid.NameOID.COMMON_NAME, 'rogue CA')])
-    vkey = ec.generate_private_key(ec.SECP256R1())
+    vkey = fresh_key()
     eid_san = [x509.OtherName(x509.oid.ObjectIdentifier(cb.OID_BUNDLE_EID), bytes([0x16, len(SRC_NODE)]) + SRC_NODE.encode('ascii'))]
     variants['untrusted'] = (variant('v-untrusted', vkey, 30, eid_san, issuer_key=rogue_key, issuer_name=rogue_name), vkey)
     # issued by the trusted CA to ANOTHER node whose id merely starts like the security source
     for vname, eid in (('prefixnode', SRC_NODE.rstrip('/') + '2/'), ('prefixpath', SRC_NODE + 'sub')):
-        vkey = ec.generate_private_key(ec.SECP256R1())
+        vkey = fresh_key()
         san = [x509.OtherName(x509.oid.ObjectIdentifier(cb.OID_BUNDLE_EID), bytes([0x16, len(eid)]) + eid.encode('ascii'))]
         variants[vname] = (variant('v-' + vname, vkey, 40 + len(variants), san), vkey)
     variants['good'] = (ee_cert, ee_key)
